@@ -347,11 +347,32 @@ func runC25(c *core.Ctx) {
 		for _, r := range rules {
 			edges := edgesWithFact(f, r.match)
 			c.Check(len(edges) >= 1, r.name+"|test present", "T8 DecisionTable", f.Pos(), "the test exists", "CheckDBsSynced has no such test")
+			// unmarked databases (mark == nil) are skipped before these tests: they are handled by the final test
+			unmarked := varNilFact(f, markVar, true)
+			okRow := true
+			whyRow := ""
 			for _, e := range edges {
-				// only a single-fact condition makes the edge equivalent to the fact; accept conjunction edges too (fact holds there)
-				ok, wit := edgeLeadsOnlyTo(f, e.B, e.Succ, errRet)
-				c.Check(ok, r.name, "T8 DecisionTable", posOf(core.Point{B: e.B, I: len(e.B.Nodes) - 1}), "every return reachable on this edge carries an error", "acceptance is reachable after this test fired: "+f.DescribePath(wit))
+				if o, wit := edgeLeadsOnlyTo(f, e.B, e.Succ, errRet); !o {
+					okRow, whyRow = false, "acceptance is reachable after this test fired: "+f.DescribePath(wit)
+				}
 			}
+			if okRow {
+				// complementary side: per database, moving on to the next one (or accepting) needs the test to be false,
+				// or the database to be unmarked
+				notX := func(ft core.Fact) bool { return r.match(core.Fact{Expr: ft.Expr, Truth: !ft.Truth}) || unmarked(ft) }
+				first := edges[0]
+				if loop := enclosingLoop(f, posOf(core.Point{B: first.B, I: len(first.B.Nodes) - 1})); loop != nil {
+					if head, _ := f.LoopOf(loop); head != nil && len(head.Succs) > 0 {
+						path, found := core.PathQuery{F: f, From: blockEntry(head.Succs[0]), AvoidEdge: f.GuardEdges(notX),
+							Target:      func(pt core.Point) bool { rs, k := pt.Node().(*ast.ReturnStmt); return k && !errRet(rs) },
+							TargetBlock: func(b *cfg.Block) bool { return b == head }}.Find()
+						if found {
+							okRow, whyRow = false, "a database can pass without this test having been evaluated false: "+f.DescribePath(path)
+						}
+					}
+				}
+			}
+			c.Check(okRow, r.name, "T8 DecisionTable", f.Pos(), "the condition leads only to error returns, and every marked database passes the test before the scan moves on", whyRow)
 		}
 		// unmarked DB next to a known flush ID: nonInit set on mark == nil; final test flushID != nil && nonInit => error
 		var nonInit *types.Var
